@@ -1812,7 +1812,9 @@ class System(object, metaclass=SystemMetaclass):
         else:
             method = self.options['derivs_method']
             if method is None:
-                method = 'fd'
+                # a declared (dynamic) coloring that hasn't been computed yet names the
+                # approximation method its step size was declared for
+                method = self._coloring_info['method'] if self._coloring_info.dynamic else 'fd'
 
         self._get_jacobian()
 
